@@ -70,8 +70,51 @@ func runOne(ctx context.Context, s solverSpec, file string, timeoutS int) (strin
 
 // solveObligation races the solvers. needAgree: number of backends that must say unsat (thorough tier: 2).
 func solveObligation(o *Obligation, dir string, timeoutS int, needAgree int, which []solverSpec) *SolveResult {
+	if len(o.Splits) > 0 && !o.Canary && o.Extra == "" {
+		// first the whole goal with a third of the budget, then the case split
+		t1 := timeoutS / 3
+		if t1 < 2 {
+			t1 = 2
+		}
+		r := solveObligation1(o, dir, t1, needAgree, which, "")
+		if r.Result == "unsat" || r.Result == "sat" {
+			return r
+		}
+		n := len(o.Splits)
+		total := r.Secs
+		for mask := 0; mask < 1<<n; mask++ {
+			var extra strings.Builder
+			for i, l := range o.Splits {
+				if mask&(1<<i) != 0 {
+					fmt.Fprintf(&extra, "(assert %s)\n", l)
+				} else {
+					fmt.Fprintf(&extra, "(assert (not %s))\n", l)
+				}
+			}
+			c := *o
+			c.Extra = extra.String()
+			rc := solveObligation1(&c, dir, timeoutS, needAgree, which, fmt.Sprintf(".case%d", mask))
+			total += rc.Secs
+			if rc.Result != "unsat" {
+				rc.Name = o.Name
+				rc.Info = o.Info + fmt.Sprintf(" | undecided in split case %d of %d", mask, 1<<n)
+				rc.obl = o
+				rc.Secs = total
+				return rc
+			}
+			r.Backend = rc.Backend + "+split"
+			r.Agree = rc.Agree
+		}
+		r.Result = "unsat"
+		r.Secs = total
+		return r
+	}
+	return solveObligation1(o, dir, timeoutS, needAgree, which, "")
+}
+
+func solveObligation1(o *Obligation, dir string, timeoutS int, needAgree int, which []solverSpec, suffix string) *SolveResult {
 	script := o.Script(false)
-	fn := filepath.Join(dir, sanitize(o.Name)+".smt2")
+	fn := filepath.Join(dir, sanitize(o.Name)+suffix+".smt2")
 	os.WriteFile(fn, []byte(script), 0o644)
 	res := &SolveResult{Name: o.Name, Kind: o.Kind, Tags: o.Tags, Info: o.Info, SMTBytes: len(script), obl: o}
 	if o.Pos.IsValid() {
